@@ -492,6 +492,30 @@ def corr_c10(n_quick, n_thorough):
     return run
 
 
+def corr_flags(ctx, chk, broken):
+    """C16 is finite: the real accessors and the regenerated definitions are evaluated on the WHOLE domain; a mismatch is the concrete input"""
+    import os
+    from concurrent.futures import ThreadPoolExecutor
+    with ThreadPoolExecutor(max_workers=2) as ex:
+        f1 = ex.submit(chk.sh, [os.path.join(chk.WORK, 'harness'), 'flags'], None, None, 600)
+        f2 = ex.submit(chk.sh, ['lake', 'env', 'lean', '--run', 'Tools/FlagSearch.lean'], chk.LEAN, None, 1800)
+        go, le = f1.result()[1], f2.result()[1]
+    out = []
+    for side, txt in (('real', go), ('model', le)):
+        for l in txt.splitlines():
+            if l.startswith('flag '):
+                out.append({'stream': 'flags-' + side, 'id': ' '.join(l.split()[:4]), 'vector': l, 'real': l if side == 'real' else None, 'other': l if side == 'model' else None})
+    dg = [l for l in go.splitlines() if l.startswith('done ')]
+    dl = [l for l in le.splitlines() if l.startswith('done ')]
+    if not dg:
+        out.append({'stream': 'flags-real', 'id': 'tool', 'vector': go[-1500:], 'real': 'harness flags did not finish', 'other': None})
+    cov = {'evaluations': 3 * 65536 + 65536, 'distinct_nontrivial': 3 * 65536 + 65536,
+           'rule': 'the complete finite domain: 256 masks x 256 F values (A derived from both) for GetFlag / SetFlag / ResetFlag and all 65536 values for SetU16;U16, on the real accessors and on the regenerated definitions; '
+                   'the theorems are symbolic proofs over the same domain, this enumeration is the search that names a failing input',
+           'correspondence': {'real': dg[0] if dg else 'not run', 'model': dl[0] if dl else 'not run (the model side needs Z80.Gen to build)'}}
+    return out, cov
+
+
 PROPS = {
     'C01': {
         'targets': ['Z80.Props.C01'],
@@ -527,10 +551,10 @@ PROPS = {
     },
     'C06': {
         'targets': ['Z80.Props.C06'],
-        'count': ['Z80/Proofs/Interrupt.lean', 'Z80/Proofs/Frame.lean', 'Z80/Props/C06.lean'] + ALL_OBL,
+        'count': ['Z80/Proofs/Interrupt.lean', 'Z80/Proofs/IM0.lean', 'Z80/Proofs/Frame.lean', 'Z80/Props/C06.lean'] + ALL_OBL,
         'correspond': corr_intr(3000, 60000),
         'assumptions': ['request types: Type = 0 is NMI, anything else maskable', 'IM 0 / IM 2 requests without data and IM outside {0,1,2} are outside the property; the code\'s behaviour (dropped / never accepted) is recorded in the specification',
-                        'mode 0 with supplied bytes: see known findings KF-1, KF-2, KF-3'],
+                        'mode 0 with supplied bytes: known findings KF-1, KF-2; for a supplied RST p the regenerated Step is PROVED equal to the recorded description Spec.stepKF for every state (C06_im0_rst); other supplied instructions are compared with it by correspondence only'],
         'explanation': 'Gen.Step with a pending request = abstract interrupt controller (NMI, refused, IM 1, IM 2, empty, bad mode) for every state; pending-request induction; EI/DI/RETN/RETI',
     },
     'C05': {
@@ -661,7 +685,7 @@ PROPS = {
     'C16': {
         'targets': ['Z80.Props.C16'],
         'count': ['Z80/Props/C16.lean'],
-        'correspond': None,
+        'correspond': corr_flags,
         'assumptions': ['the pointer receivers of SetFlag/ResetFlag/SetU16 are modelled as lenses on the CPU record'],
         'explanation': 'symbolic bit-vector theorems over the definitions regenerated from flag.go and z80.go (all masks x all F; all 65536 register values)',
     },
